@@ -135,6 +135,23 @@ def run_case(rng, tier, case):
                    worst=float(np.max(np.abs(c_only - cfull))) if c_only.shape == cfull.shape else None)
     except Exception as e:
         case.check('orders.cost_vector_equals_problem_costs', False, error='%s: %s' % (type(e).__name__, str(e)[:160]))
+    if rng.random() < 0.4:
+        # ... also on ANOTHER grid with the same start and end but other steps (a daily planning run, then hourly price samples): the used objects
+        # give the cost vector fresh objects give
+        try:
+            from ..spec import build, build_timegrid
+            gY = dict(gen.strip_private(spec)['grid'])
+            gY['freq'] = {'h': gen.pick(rng, ['2h', '30min', '4h']), '30min': 'h', '15min': 'h', '2h': gen.pick(rng, ['h', '4h']), '4h': gen.pick(rng, ['h', '2h'])}.get(gY['freq'])
+            if gY['freq'] is not None:
+                with attach.paused(), env.quiet():
+                    tgY = build_timegrid(gY)
+                    prY = {k: np.asarray(v_, float) for k, v_ in gen.gen_prices(rng, tgY.T, sorted(spec['prices'])).items()}
+                    c_used = np.asarray(r.built.portfolio.setup_optim_problem(prY, tgY, costs_only=True), float)
+                    c_fresh = np.asarray(build(gen.strip_private(spec)).portfolio.setup_optim_problem(prY, build_timegrid(gY), costs_only=True), float)
+                case.check('orders.cost_vector_on_other_grid_same_as_fresh', c_used.shape == c_fresh.shape and bool(np.allclose(c_used, c_fresh, rtol=1e-9, atol=1e-12)),
+                           other_freq=gY['freq'], worst=float(np.max(np.abs(c_used - c_fresh))) if c_used.shape == c_fresh.shape and len(c_used) else None)
+        except Exception as e:
+            case.check('orders.cost_vector_on_other_grid_same_as_fresh', False, error='%s: %s' % (type(e).__name__, str(e)[:160]))
     if mip and rng.random() < 0.6:
         # the documented relaxed run on the same problem object, then an ordinary run again: full execution is enforced as before
         try:
